@@ -265,6 +265,8 @@ TSCALE = 10 ** 7
 def run(rep, tier, prop, names, tol, full_order=8, variants=1, rule=None, minimum=None, what=None):
     rule = rule or ("T." + prop)
     gs = [g for g in groups.catalogue("quick")]
+    if prop in ("C02", "C04") and rule.startswith("T.C"):
+        gs.append(groups.base("SE_3_3"))      # a second member of the SE_K_3 family: offsets that are only right for K = 2 become visible
     if tier == "thorough":
         gs += [g for g in groups.catalogue("thorough") if g.key in ("SE_1_3d", "B_SE3d_SO2d_V3d_C1d", "B_nested")]
         variants = max(variants, 2)
@@ -277,20 +279,26 @@ def run(rep, tier, prop, names, tol, full_order=8, variants=1, rule=None, minimu
         g, nm = meta["g"], meta["name"]
         (r1, c1), (r2, c2) = meta["shape"]
         hess = nm in ("d2rexp", "d2rinv")
-        for variant in list(range(variants)) + ["zero-part"]:
-            if variant == "zero-part":
+        for variant in list(range(variants)) + ["neg", "zero-part"]:
+            if variant == "neg":
+                # the mirrored ray: formulas that are only right for one sign of a rotation coordinate (|w| for w, a one-sided branch) show up here
+                a0 = [-x for x in direction(g, 0, tscale=TSCALE)]
+                b0 = direction(g, 1)[::-1]
+            elif variant == "zero-part":
                 a0 = zero_part(g, direction(g, 0, tscale=TSCALE))
                 if a0 is None:
                     continue
                 b0 = direction(g, 1)[::-1]
-            else:
+            elif variant != "neg":
                 a0 = direction(g, variant, tscale=TSCALE)
                 b0 = direction(g, variant + 1)[::-1]
             inputs = {"a%d" % i: Series({1: a0[i]}, rays.N_IN) for i in range(g.dof)}
             if hess:
                 inputs.update({"b%d" % i: Series.const(b0[i], rays.N_IN) for i in range(g.dof)})
 
-            def cell_var(p, off, ty, hess=hess):
+            def cell_var(p, off, ty, hess=hess, g=g):
+                if (p == 0 or (p == 1 and hess)) and not (0 <= off // 8 < g.dof):
+                    raise poly.OutOfRange("element %d of the %d-element tangent argument" % (off // 8, g.dof))
                 if p == 0:
                     return "a%d" % (off // 8)
                 if p == 1 and hess:
@@ -324,6 +332,11 @@ def run(rep, tier, prop, names, tol, full_order=8, variants=1, rule=None, minimu
                 rep.instance(rule, g.ctype, inst, ok=False, sample={"witness": fname, "identity": IDENT[nm][1]})
                 rep.violation(Finding(rule, g.ctype, inst, "%s: a value is narrowed to a lower floating-point precision inside this double-precision "
                                       "operation (`%s`)" % (IDENT[nm][1], str(ex)[:80]), None, None, detail={"witness": fname}))
+                continue
+            except poly.OutOfRange as ex:
+                rep.instance(rule, g.ctype, inst, ok=False, sample={"witness": fname, "identity": IDENT[nm][1]})
+                rep.violation(Finding(rule, g.ctype, inst, "%s: the compiled operation reads %s (a sub-vector is addressed with an offset that is only right for another size of this "
+                                      "group family)" % (IDENT[nm][1].split("==")[0].strip(), ex), None, None, detail={"witness": fname}))
                 continue
             except (poly.Unsupported, ir.Unresolved) as ex:
                 rep.broke("%s (%s): cannot abstract into the series domain: %s" % (fname, inst, ex))
